@@ -367,7 +367,7 @@ fn run_loom(tier: Tier, pr_pairs: &[(Op, Op)], pc_pairs: &[(Op, Op)], ctx: &mut 
         json!({"model": model, "t": st.0, "v": st.1, "n": st.2, "threads": threads, "preemption_bound": pb, "max_branches": 100000})
     };
     let a0 = Op(0, Derivative::DV, Derivative::DV);
-    let npairs = tier.pick(3, 8);
+    let npairs = 8;
     for (model, st, pairs) in [("pr2", PR2, pr_pairs), ("pcsaft_cross2", PC2, pc_pairs)] {
         for (a, b) in pairs.iter().take(npairs) {
             // 2 threads x 2 ops, unbounded
